@@ -86,6 +86,9 @@ def reduce_sel(t, alt_index, nary=None):
     return {"o": t["o"], "a": [reduce_sel(x, alt_index) for x in t["a"]]}
 
 
+KWNAMES = ["wide", "narrow", "mid"]      # keyword names of chooses(k=..): written order is not alphabetical order
+
+
 class World:
     """real field objects standing for the leaves"""
 
@@ -118,7 +121,7 @@ class World:
             return fn(*alts)
         if t["form"] == "dict":
             return fn({i: x for i, x in enumerate(alts)})
-        return fn(**{"k%d" % i: x for i, x in enumerate(alts)})
+        return fn(**{KWNAMES[i]: x for i, x in enumerate(alts)})
 
     def eager(self, t, env, opmap=None):
         """the same Python expression applied eagerly to the already-parsed values"""
@@ -136,7 +139,7 @@ class World:
                 return alts[a]
             if t["form"] == "dict":
                 return {i: x for i, x in enumerate(alts)}[a]
-            return {b"k%d" % i: x for i, x in enumerate(alts)}[a]
+            return {KWNAMES[i].encode(): x for i, x in enumerate(alts)}[a]
         return alts[0] if bool(a) else alts[1]
 
 
